@@ -343,13 +343,13 @@ impl CasObjectInfoV1 {
             final(reader).bytes() == old(reader).bytes(),
             /*@C07*/ ret matches Ok((s, n)) ==> s.chunk_boundary_offsets@.len() == s.num_chunks && s.unpacked_chunk_offsets@.len() == s.num_chunks
                 && s.boundary_section_offset_from_end == boundary_section_len(s.num_chunks as nat, s.num_chunks as nat),
-//@ loop 1
+//@ after `for vx_u in 0..num_chunks_boundaries_section` #1
             invariant
                 reader.bytes() == old(reader).bytes(), old(reader).bytes().len() <= u32::MAX,
                 r.n <= r.avail, r.avail <= old(reader).bytes().len(),
                 s.chunk_hashes@.len() == 0, s.chunk_boundary_offsets@.len() == vx_u, s.unpacked_chunk_offsets@.len() == 0,
                 r.n == 12 + 4 * vx_u,
-//@ loop 2
+//@ after `for vx_u in 0..num_chunks_boundaries_section` #2
             invariant
                 reader.bytes() == old(reader).bytes(), old(reader).bytes().len() <= u32::MAX,
                 r.n <= r.avail, r.avail <= old(reader).bytes().len(),
